@@ -7,14 +7,14 @@ def tla_set(xs):
 
 
 def consts(*, npreps=3, basecount=2, voters=("v1", "v2"), t=3, elected=2, brnum=1, brden=2, rewardp=431910,
-           rewardw=43191, minbond=1, amts=(1, 2), rates=(0, 1500), maxbase=2, maxev=2, record=True):
+           rewardw=43191, minbond=1, amts=(1, 2), rates=(0, 1500), maxbase=2, maxev=2, terms=1, record=True):
     # RewardP * T * 1000 must stay below 2^31 (TLC integers); RewardP and RewardW share a large common factor so
     # that the driver can express them as Iglobal x allocation rates
     assert rewardp * t * 1000 < 2 ** 31
     c = {"NPreps": npreps, "BaseCount": basecount, "Voters": tla_set(voters), "T": t, "Elected": elected,
          "BRNum": brnum, "BRDen": brden, "RewardP": rewardp, "RewardW": rewardw, "MinBond": minbond,
          "Amts": tla_set(amts), "Rates": tla_set(rates), "MaxBase": maxbase, "MaxEv": maxev,
-         "Record": "TRUE" if record else "FALSE"}
+         "Terms": terms, "Record": "TRUE" if record else "FALSE"}
     g = dict(npreps=npreps, basecount=basecount, voters=list(voters), t=t, elected=elected, brnum=brnum, brden=brden,
              rewardp=rewardp, rewardw=rewardw, minbond=minbond)
     return c, g
@@ -33,30 +33,41 @@ def run(ctx):
     def gen(name, c, g, **kw):
         return (name, g, ctx.behaviours("iiss", "Gen_Reward", "Gen_Reward.cfg", constants=c, **kw))
 
+    def mc2():
+        # 1b. two consecutive terms (carry-over of votes, statuses, pruned records, I-Scores), one base vote, one event per term
+        c, _ = consts(maxbase=1, maxev=1, rates=(1500,), terms=2, record=False)
+        import vlib
+        return ctx.model_check("iiss", "MC_Reward", "MC_Reward.cfg", constants=c, coverage=False,
+                               timeout=3000, workers=max(2, vlib.NCPU // 2))
+
     jobs = [mc]
+    if not ctx.quick():
+        jobs.append(mc2)
     n = ctx.pick(400, 4000)
     variants = [
         dict(maxbase=4, maxev=6),
+        dict(maxbase=4, maxev=4, terms=3),
         dict(t=4, elected=1, brnum=0, brden=1, maxbase=4, maxev=6, rewardp=323929, rewardw=0, rates=(0, 10000)),
         dict(npreps=4, basecount=3, voters=("v1", "v2", "v3"), t=4, elected=2, brnum=1, brden=20, amts=(1, 3, 7),
-             rates=(0, 1000, 3333), maxbase=6, maxev=8, rewardp=431910, rewardw=86382, minbond=2),
+             rates=(0, 1000, 3333), maxbase=6, maxev=5, rewardp=431910, rewardw=86382, minbond=2, terms=2),
         dict(npreps=4, basecount=4, voters=("v1", "v2", "v3"), t=2, elected=3, brnum=1, brden=5, amts=(1, 2, 5),
              rates=(0, 700), maxbase=7, maxev=5, rewardp=907011, rewardw=0),
     ]
     for i, v in enumerate(variants):
         c, g = consts(**v)
-        jobs.append(lambda c=c, g=g, i=i: gen("walk%d" % i, c, g, simulate="num=%d" % (n // len(variants)), depth=40,
+        jobs.append(lambda c=c, g=g, i=i: gen("walk%d" % i, c, g, simulate="num=%d" % (n // len(variants)), depth=70,
                                               seed=ctx.seed * 100 + i, timeout=1500))
     # all scenarios with one base vote and one event (BFS)
     c, g = consts(maxbase=1, maxev=1, rates=(1500,))
     jobs.append(lambda c=c, g=g: gen("bfs", c, g, timeout=900, workers=2))
+    nmc = len(jobs) - len(variants) - 1
     if ctx.replay:
-        jobs = jobs[:1]
+        jobs = jobs[:nmc]
     with ThreadPoolExecutor(max_workers=len(jobs)) as ex:
         futs = [ex.submit(j) for j in jobs]
         res = [f.result() for f in futs]
-    r, groups = res[0], res[1:]
-    ctx.check_coverage(r, ["BaseVote", "StartTerm", "Event", "SetStatus", "NextBlock", "Calculate"])
+    r, groups = res[0], res[nmc:]
+    ctx.check_coverage(r, ["BaseVote", "StartTerm", "Event", "SetStatus", "NextBlock", "Calculate"], allow_zero=("NextTerm",))
     ctx.exhaustive = True
     cases, seen = [], set()
     for name, g, bs in groups:
@@ -77,16 +88,16 @@ def run(ctx):
     recs = ctx.go_replay("reward", "TestReplay", inp, shards=1 if ctx.replay else 4, timeout=ctx.pick(900, 3000))
     ctx.absorb(recs)
     for cse in cases[:2] + cases[-1:]:
-        ctx.sample([{k: s[k] for k in ("op", "v", "t", "p", "a", "s", "off", "rate") if k in s}
+        ctx.sample([{k: s[k] for k in ("op", "v", "t", "p", "a", "s", "off", "term") if k in s}
                     for s in cse["steps"] if s["op"] != "calc"][:14])
     return ctx.finish(
         rule="a scenario = one TLC-generated term: base delegations/bonds, vote and enable/disable events at block "
              "offsets, reward calculation (all scenarios with one base vote and one event by BFS + random walks over "
-             "four parameter sets); distinct by its vote/event sequence and commission rates; non-trivial if some "
+             "five parameter sets, two of them with 2-3 consecutive terms whose votes, statuses and I-Scores carry over); distinct by its vote/event sequence and commission rates; non-trivial if some "
              "P-Rep earns a reward; every scenario is run through calculator.New end to end and through the "
              "PRepInfo/Voter API, the budget inequalities are evaluated on the real outputs and every output is compared "
              "with the spec's prediction",
-        assumptions=["IISS version 4 (GlobalV3) only; one vote per event; P-Reps and voters are distinct accounts",
+        assumptions=["IISS version 4 (GlobalV3) only; no BTP DSA is required (every P-Rep with a Voted record has all public keys); one vote per event; P-Reps and voters are distinct accounts",
                      "vote amounts are small integers times a seeded scale factor (1, a small number or 10^18); "
                      "rewards do not depend on the scale",
                      "penalties, jail states, BTP public keys and commission-rate changes inside the term are not modelled"])
